@@ -625,12 +625,55 @@ fn concurrent_programs() -> Vec<(crate::sched::Program, crate::props::e1::Mode)>
                 crate::props::e1::side_bound(),
             ));
         }
+        // the key is absent: a put inserts it while another participant looks it up, touches it or puts it too.  A
+        // participant that found the entry came after its insertion, so its mark is the last word on the entry.
+        let bystander = vec![planted(&loc.replace("k", "other"), Val::one(5), false, 1)];
+        for (name, racer) in [("touch", Op::Touch(k.clone())), ("put", Op::Put(k.clone(), v(1))), ("get", Op::Get(k.clone()))] {
+            out.push((
+                crate::sched::Program {
+                    name: format!("insert-{}-put|{}", front, name),
+                    cfg: cfg.clone(),
+                    pre: bystander.clone(),
+                    threads: e1::own_handles(vec![vec![api(Op::Put(k.clone(), v(0)))], vec![api(racer)]], false),
+                    create_write_dir: true,
+                },
+                crate::props::e1::side_bound(),
+            ));
+        }
     }
     out
 }
 
 fn concurrent_check(x: &crate::sched::Execution) -> Vec<(String, String)> {
     let mut bad = Vec::new();
+    // programs "insert-*": both participants succeeded and the second one found the entry => it is marked at the end
+    let inserting = x.history.len() == 2 && x.history.iter().all(|r| !r.outcome.res.is_err() && !r.outcome.res.is_panic()) && matches!(x.history.iter().find(|r| r.tid == 0).map(|r| &r.op), Some(crate::sched::POp::Api(Op::Put(..))));
+    if inserting {
+        let racer = x.history.iter().find(|r| r.tid == 1);
+        let found = match racer.map(|r| (&r.op, &r.outcome.res)) {
+            Some((crate::sched::POp::Api(Op::Touch(_)), crate::ops::Res::Bool(true))) => true,
+            Some((crate::sched::POp::Api(Op::Get(_)), crate::ops::Res::Hit(_))) => true,
+            // two puts: whichever lost the insertion marked the winner's entry afterwards
+            Some((crate::sched::POp::Api(Op::Put(..)), crate::ops::Res::Unit)) => true,
+            _ => false,
+        };
+        if found {
+            for (rel, n) in &x.final_snapshot {
+                if n.kind == 'f' && (rel == "w/k" || (rel.starts_with("w/") && rel.ends_with("/k") && !rel.contains(".kismet_temp"))) && n.meta.mtime - n.meta.atime >= 60_000_000_000 {
+                    // (the library clears a mark by setting atime two minutes before mtime.  A racer that read its clock a
+                    // few calls before the inserter stamped the file leaves atime a few milliseconds short of mtime: that
+                    // is the racer's own, stale, mark - a concurrent effect outside this property's sequential quantifier,
+                    // see DESIGN 9.4 - and is not what is flagged here.  Flagged: the mark was there and the inserter's
+                    // stamp, applied after the entry became visible, wiped it.)
+                    bad.push((
+                        "mark-lost-to-late-stamp".into(),
+                        format!("{}: a participant found the entry after its insertion (its operation succeeded on the existing key), yet the entry ends up carrying a freshly cleared mark (atime two minutes before mtime): it was stamped after it became visible", rel),
+                    ));
+                }
+            }
+        }
+        return bad;
+    }
     // the planted entries are a day old; anything set during the execution is stamped "now"
     let threshold = run::base_time_ns() as i128 - 3_600_000_000_000;
     let setv = crate::props::e1::wval(1, 0, world::Size::One).bytes();
@@ -734,7 +777,7 @@ pub fn run(tier: Tier, shard: Shard, rep: &mut Report) {
         other tools (atime a fraction of a second behind mtime, inside the same second) and three (sharded) from entries living in \
         their secondary shard; thorough: all of them to depth 8 or fixpoint, and \
         all populated starts to depth 4. Plus: touch / put-on-existing / get racing with a set of the same key (all schedules with \
-        <= 2 preemptions): the entry that ends up holding the set's value never carries the replaced entry's modification time. And: every call of a marking operation failing once in turn (3 front-ends x 3 atime policies): an operation \
+        <= 2 preemptions): the entry that ends up holding the set's value never carries the replaced entry's modification time; and touch / get / put racing with a put that inserts the key: whoever found the entry has marked it for good. And: every call of a marking operation failing once in turn (3 front-ends x 3 atime policies): an operation \
         that still reports success has set the mark and left the mtime alone. \
         Non-trivial = states with >= 2 entries and a read mark."
         .into();
